@@ -116,7 +116,12 @@ class Numerical(hyperparameter.HyperParameter):
         """Get the total number of possible values using step."""
         if self.sampling == "linear":
             # +1 so that max_value may be sampled.
-            return int((self.max_value - self.min_value) // self.step + 1)
+            span = self.max_value - self.min_value
+            if isinstance(span, int) and isinstance(self.step, int):
+                return span // self.step + 1
+            # +1e-8 so that max_value is included when it lies on the lattice
+            # up to floating point error (as for log sampling below).
+            return int(span / self.step + 1e-8) + 1
         # For log and reverse_log
         # +1 so that max_value may be sampled.
         return (
@@ -164,7 +169,12 @@ class Numerical(hyperparameter.HyperParameter):
         function takes care of the inclusion of max_value.
         """
         if self.sampling == "linear":
-            index = (value - self.min_value) // self.step
+            offset = value - self.min_value
+            if isinstance(offset, int) and isinstance(self.step, int):
+                index = offset // self.step
+            else:
+                # +1e-8 to absorb the floating point error of the division.
+                index = math.floor(offset / self.step + 1e-8)
         if self.sampling == "log":
             index = math.log(value / self.min_value, self.step)
         if self.sampling == "reverse_log":
